@@ -2,7 +2,7 @@
 extent of its axis before a value derived from it reaches a loader call, a range read, a
 subscript of a padded array, or a callee that does not itself discharge it."""
 import ast
-from ..core import U, AnalysisError, enclosing_stmt
+from ..core import U, AnalysisError, enclosing_stmt, parent
 from ..bounds import BoundsAnalysis, NON_INDEX_PARAMS
 from .. import readerfacts as RF
 
@@ -57,6 +57,60 @@ def public_entry_points(P, G, B):
     return out
 
 
+def ordinal_lower_bound(ctx):
+    """C14.8: the accessors add len() once to a negative ordinal and hand the result on; an ordinal below -len is still
+    negative then.  The reader method that receives it must reject negatives itself - a numpy / list subscript would wrap
+    a second time and return the item len+i counted from the end (header[-26] of 25 traces returning header[-1]).  So in
+    every reader method bound as the values_function of an ordinal accessor, each subscript whose index is the ordinal
+    parameter is dominated, in 3D and in 2D mode, by the fact 0 <= ordinal."""
+    from .. import readerfacts as RF_
+    P, G = ctx.P, ctx.G
+    ctx.rule('C14.8', 'ordinals handed on by the accessors are rejected when still negative (no second wrap-around), 3D and 2D')
+    acc = P.cls('accessors.Accessor')
+    reader = P.cls(RF.READER)
+    targets = {}
+    for c in acc.all_subclasses():
+        init = c.methods.get('__init__')
+        if init is None:
+            continue
+        for a in ast.walk(init.node):
+            if isinstance(a, ast.Attribute) and isinstance(a.value, ast.Name) and a.value.id == 'self':
+                m = reader.find_method(a.attr)
+                if m is not None and len(m.params) >= 2 and (m.params[1].endswith('_id') or m.params[1] in ('index', 'i')) and \
+                        any(isinstance(p_, (ast.Assign, ast.keyword, ast.Call)) for p_ in [parent(a)]):
+                    # only methods bound (or passed) as values_function
+                    par = parent(a)
+                    bound = (isinstance(par, ast.Assign) and U(par.targets[0]).endswith('values_function')) or \
+                        (isinstance(par, ast.keyword) and par.arg == 'values_function') or \
+                        (isinstance(par, ast.Call) and a in par.args and a is par.args[-1])
+                    if bound:
+                        targets[m.qualname] = m
+    if len(targets) < 3:
+        raise AnalysisError('reader methods bound as values_function of ordinal accessors: found %d, floor 3' % len(targets))
+    for q, m in sorted(targets.items()):
+        par_name = m.params[1]
+        for mode in ('3d', '2d'):
+            fm = RF_.factmap(P, m, mode)
+            for x in ast.walk(m.node):
+                if not (isinstance(x, ast.Subscript) and isinstance(x.ctx, ast.Load)):
+                    continue
+                idx = x.slice.elts if isinstance(x.slice, ast.Tuple) else [x.slice]
+                if not any(isinstance(i_, ast.Name) and i_.id == par_name for i_ in idx):
+                    continue
+                if not fm.is_reachable(x):
+                    continue
+                paths = fm.paths_at(x) or []
+                ok = bool(paths) and all(('<=', '0', par_name) in p_ or ('>=', par_name, '0') in p_ for p_ in paths)
+                label = '%s: %s [%s]' % (m.name, U(x)[:40], mode)
+                if ok:
+                    ctx.ok('C14.8', m, label, '0 <= %s holds on every path' % par_name)
+                else:
+                    ctx.fail('C14.8', m, enclosing_stmt(x), '`%s` is subscripted with the ordinal `%s` on a %s file without 0 <= %s being '
+                             'established: an accessor hands on an ordinal that is still negative after adding len() once '
+                             '(e.g. header[-len-1]), the subscript wraps a second time and another item is returned instead of '
+                             'IndexError' % (U(x.value)[:40], par_name, mode.upper(), par_name), line=x.lineno, key_extra=mode)
+
+
 def memo_lookup_guard(ctx):
     """C14.7: an ordinal that subscripts an in-memory header array (self.variant_headers[k][i]) is bounded only by the length
     of that array, and the arrays exist in two representations (compacted to the stored traces / padded to the grid).
@@ -103,6 +157,7 @@ def run(ctx):
     diaglen.check(ctx, 'C14.6')
     guard_exceptions(ctx, None)
     memo_lookup_guard(ctx)
+    ordinal_lower_bound(ctx)
     B = BoundsAnalysis(P, G)
     entries = public_entry_points(P, G, B)
     seen_fail = set()
